@@ -25,12 +25,13 @@ def run(ctx):
     cases = []
     for i, (p, fin) in enumerate(sorted(groups.items())):
         cases.append(dict(id=i, prob=p, finals=[[tlaval.parse_value(xt), s] for (xt, s) in sorted(fin)]))
-    res = ctx.run_impl("c20", cases, nproc=core.NCPU, timeout_s=3000)
+    res = ctx.run_impl("c20", cases, nproc=core.NCPU, timeout_s=3000, env=dict(VERIF_CASE_TIMEOUT=10))
     nbad = 0
     for c in cases:
         o = res[c["id"]]
-        if o.get("st") == "crashed":
-            ctx.violation("M1", "interpreter crashed", dict(prob=c["prob"]), cls="crash"); nbad += 1
+        if o.get("st") in ("crashed", "timeout"):
+            ctx.violation("M1", "greedy_substitution did not terminate (or crashed): %s" % o.get("st"),
+                          dict(mode="prob", prob=c["prob"], finals=c["finals"]), cls=o.get("st")); nbad += 1
             continue
         if o.get("nontrivial"):
             ctx.nontrivial(c["id"])
@@ -49,7 +50,7 @@ def run(ctx):
     c0 = dict(cases[0]); c0["id"] = 10 ** 6
     c0["finals"] = [[[(v + 1) % 4 for v in f[0]], f[1]] for f in c0["finals"]]
     o = ctx.run_impl("c20", [c0], nproc=1)[10 ** 6]
-    ctx.negative_control("a shifted admissible set must make the comparison fail", bool(o["v"]))
+    ctx.negative_control("a shifted admissible set must make the comparison fail", bool(o.get("v") or o.get("st") in ("timeout", "crashed")))
     ctx.assumptions += ["the designed-against model is the exact-integer linear read-out Wt of spec/Greedy.tla, mirrored in "
                         "harness/impl/c20.py; the loss of the returned sequence cross-checks the mirror",
                         "two outputs, so masked means are exact in float32; tol in halves"]
@@ -57,7 +58,10 @@ def run(ctx):
 
 def replay(ctx, v):
     c = v["case"]
-    o = ctx.run_impl("c20", [dict(id=0, prob=c["prob"], finals=c["finals"])], nproc=1)[0]
+    o = ctx.run_impl("c20", [dict(id=0, prob=c["prob"], finals=c["finals"])], nproc=1, env=dict(VERIF_CASE_TIMEOUT=10))[0]
+    if o.get("st") in ("crashed", "timeout"):
+        print("VIOLATION property=C20 replay=(replayed) clause=did not terminate")
+        return 1
     if o["v"]:
         print("VIOLATION property=C20 replay=(replayed) clause=%s" % o["v"])
         return 1
